@@ -23,7 +23,7 @@ from sim.core import ROOT, EventLog, digest_of, violation
 PROPERTY = "C17"
 ISOLATE = True
 TIERS = {
-    "quick": {"runs": 2400, "budget_s": 110, "timeout_s": 90, "chunk": 8, "det_sample": 32, "det_runs": 200},
+    "quick": {"runs": 2400, "budget_s": 180, "timeout_s": 90, "chunk": 8, "det_sample": 32, "det_runs": 200},
     "thorough": {"runs": 60000, "budget_s": 1500, "timeout_s": 180, "chunk": 8, "det_sample": 48, "det_runs": 600},
 }
 RULE = ("seeded plans: (base grid class/shape/bounds/periodicity, admissible decomposition with product 2-6 incl. uneven and "
